@@ -14,6 +14,8 @@
 import GojaModel.C14.Model
 import GojaModel.Generated.C14_PanicKinds
 
+set_option linter.unusedVariables false
+
 namespace GojaModel.C14.Expected
 
 /-- (case types, normalised body statements) in source order -/
@@ -228,6 +230,15 @@ def skel_generatorObjectStep : List String := [
   "default",
   ".panic(g.val.runtime.NewTypeError(\"Runtime bug: unexpected result type: %v\", resType))"]
 
+def skel_tryCallDelegated : List String := [
+  "ex := g.val.runtime.try(func)",
+  ".func{",
+  "..ret, done = fn()",
+  ".}",
+  "if ex != nil",
+  ".return g.step(g.gen.nextThrow(ex)), false",
+  "return"]
+
 def skel_asyncRunnerStep : List String := [
   "if done || ex != nil",
   ".if ex == nil",
@@ -349,45 +360,74 @@ def recoverSites : List String := [
   "vm.go:*vm.try",
   "vm.go:*vm.runTryInner"]
 
+/-- What handleThrow does with the top try frame, as the ordered if-chain of its loop body. c = tf.catchPos, f = tf.finallyPos (tryPanicMarker = -2). -/
+def handleThrowDecision (c f : Int) (exNil : Bool) : String :=
+  if (((c == (-1 : Int)) && (f == (-1 : Int))) || (exNil && (c != (-2 : Int)))) then "continue" else
+  if (c == (-2 : Int)) then "break" else
+  if decide (c ≥ (0 : Int)) then "caught" else
+  if decide (f ≥ (0 : Int)) then "finally" else
+  "next-iteration"
+
+/-- `_throw.exec` reuses the own stack of an errorObject iff … (stackLen = len(e.stack), allocated = e.stack != nil) -/
+def throwReusesOwnStack (stackLen : Nat) (allocated : Bool) : Bool := decide (stackLen > 0)
+
+/-- wrapReflectFunc, non-nil error result: what is panicked, by the ordered checks of the source. -/
+def wrapReflectDecision (isException isUncatchable : Bool) : String :=
+  if isException then "panic(err)" else
+  if isUncatchable then "panic(err)" else
+  "panic(r.NewGoError(err))"
+
+/-- runWrapped's deferred recover: the error is returned iff asUncatchableException recognises the panic value, else re-panicked. -/
+def runWrappedRecoverDecision (recognised : Bool) : String := if recognised then "err = ex" else "panic(x)"
+
+/-- RunProgram's deferred recover: the error is returned iff asUncatchableException recognises the panic value, else re-panicked. -/
+def runProgramRecoverDecision (recognised : Bool) : String := if recognised then "err = ex" else "panic(x)"
+
 end GojaModel.C14.Expected
 
 namespace GojaModel.C14.Tie
 open GojaModel.C14
 
-theorem tie_efvCases : GojaModel.Generated.C14.efvCases = Expected.efvCases := by rfl
-theorem tie_efvTail : GojaModel.Generated.C14.efvTail = Expected.efvTail := by rfl
-theorem tie_skel_asUncatchableException : GojaModel.Generated.C14.skel_asUncatchableException = Expected.skel_asUncatchableException := by rfl
-theorem tie_skel_isUncatchableException : GojaModel.Generated.C14.skel_isUncatchableException = Expected.skel_isUncatchableException := by rfl
-theorem tie_skel_handleThrow : GojaModel.Generated.C14.skel_handleThrow = Expected.skel_handleThrow := by rfl
-theorem tie_skel_vmTry : GojaModel.Generated.C14.skel_vmTry = Expected.skel_vmTry := by rfl
-theorem tie_skel_runTry : GojaModel.Generated.C14.skel_runTry = Expected.skel_runTry := by rfl
-theorem tie_skel_runTryInner : GojaModel.Generated.C14.skel_runTryInner = Expected.skel_runTryInner := by rfl
-theorem tie_skel_runWrapped : GojaModel.Generated.C14.skel_runWrapped = Expected.skel_runWrapped := by rfl
-theorem tie_skel_NewGoError : GojaModel.Generated.C14.skel_NewGoError = Expected.skel_NewGoError := by rfl
-theorem tie_skel_ExceptionUnwrap : GojaModel.Generated.C14.skel_ExceptionUnwrap = Expected.skel_ExceptionUnwrap := by rfl
-theorem tie_skel_InterruptedUnwrap : GojaModel.Generated.C14.skel_InterruptedUnwrap = Expected.skel_InterruptedUnwrap := by rfl
-theorem tie_skel_throwExec : GojaModel.Generated.C14.skel_throwExec = Expected.skel_throwExec := by rfl
-theorem tie_skel_call : GojaModel.Generated.C14.skel_call = Expected.skel_call := by rfl
-theorem tie_skel_ForOf : GojaModel.Generated.C14.skel_ForOf = Expected.skel_ForOf := by rfl
-theorem tie_skel_iterStep : GojaModel.Generated.C14.skel_iterStep = Expected.skel_iterStep := by rfl
-theorem tie_skel_Try : GojaModel.Generated.C14.skel_Try = Expected.skel_Try := by rfl
-theorem tie_skel_rtry : GojaModel.Generated.C14.skel_rtry = Expected.skel_rtry := by rfl
-theorem tie_skel_AssertFunction : GojaModel.Generated.C14.skel_AssertFunction = Expected.skel_AssertFunction := by rfl
-theorem tie_skel_leave : GojaModel.Generated.C14.skel_leave = Expected.skel_leave := by rfl
-theorem tie_skel_restoreStacks : GojaModel.Generated.C14.skel_restoreStacks = Expected.skel_restoreStacks := by rfl
-theorem tie_skel_generatorObjectStep : GojaModel.Generated.C14.skel_generatorObjectStep = Expected.skel_generatorObjectStep := by rfl
-theorem tie_skel_asyncRunnerStep : GojaModel.Generated.C14.skel_asyncRunnerStep = Expected.skel_asyncRunnerStep := by rfl
-theorem tie_skel_ExceptionError : GojaModel.Generated.C14.skel_ExceptionError = Expected.skel_ExceptionError := by rfl
-theorem tie_skel_ExceptionString : GojaModel.Generated.C14.skel_ExceptionString = Expected.skel_ExceptionString := by rfl
-theorem tie_skel_ExceptionValueString : GojaModel.Generated.C14.skel_ExceptionValueString = Expected.skel_ExceptionValueString := by rfl
-theorem tie_skel_underscoreCall : GojaModel.Generated.C14.skel_underscoreCall = Expected.skel_underscoreCall := by rfl
-theorem tie_skel_RunProgram : GojaModel.Generated.C14.skel_RunProgram = Expected.skel_RunProgram := by rfl
-theorem tie_skel_wrapReflectErr : GojaModel.Generated.C14.skel_wrapReflectErr = Expected.skel_wrapReflectErr := by rfl
-theorem tie_skel_wrapJSFuncErr : GojaModel.Generated.C14.skel_wrapJSFuncErr = Expected.skel_wrapJSFuncErr := by rfl
-theorem tie_skel_promiseReactionJob : GojaModel.Generated.C14.skel_promiseReactionJob = Expected.skel_promiseReactionJob := by rfl
-theorem tie_uncatchableMarkerReceivers : GojaModel.Generated.C14.uncatchableMarkerReceivers = Expected.uncatchableMarkerReceivers := by rfl
-theorem tie_uncatchableTypes : GojaModel.Generated.C14.uncatchableTypes = Expected.uncatchableTypes := by rfl
-theorem tie_recoverSites : GojaModel.Generated.C14.recoverSites = Expected.recoverSites := by rfl
+theorem tie_efvCases : @GojaModel.Generated.C14.efvCases = @Expected.efvCases := by rfl
+theorem tie_efvTail : @GojaModel.Generated.C14.efvTail = @Expected.efvTail := by rfl
+theorem tie_skel_asUncatchableException : @GojaModel.Generated.C14.skel_asUncatchableException = @Expected.skel_asUncatchableException := by rfl
+theorem tie_skel_isUncatchableException : @GojaModel.Generated.C14.skel_isUncatchableException = @Expected.skel_isUncatchableException := by rfl
+theorem tie_skel_handleThrow : @GojaModel.Generated.C14.skel_handleThrow = @Expected.skel_handleThrow := by rfl
+theorem tie_skel_vmTry : @GojaModel.Generated.C14.skel_vmTry = @Expected.skel_vmTry := by rfl
+theorem tie_skel_runTry : @GojaModel.Generated.C14.skel_runTry = @Expected.skel_runTry := by rfl
+theorem tie_skel_runTryInner : @GojaModel.Generated.C14.skel_runTryInner = @Expected.skel_runTryInner := by rfl
+theorem tie_skel_runWrapped : @GojaModel.Generated.C14.skel_runWrapped = @Expected.skel_runWrapped := by rfl
+theorem tie_skel_NewGoError : @GojaModel.Generated.C14.skel_NewGoError = @Expected.skel_NewGoError := by rfl
+theorem tie_skel_ExceptionUnwrap : @GojaModel.Generated.C14.skel_ExceptionUnwrap = @Expected.skel_ExceptionUnwrap := by rfl
+theorem tie_skel_InterruptedUnwrap : @GojaModel.Generated.C14.skel_InterruptedUnwrap = @Expected.skel_InterruptedUnwrap := by rfl
+theorem tie_skel_throwExec : @GojaModel.Generated.C14.skel_throwExec = @Expected.skel_throwExec := by rfl
+theorem tie_skel_call : @GojaModel.Generated.C14.skel_call = @Expected.skel_call := by rfl
+theorem tie_skel_ForOf : @GojaModel.Generated.C14.skel_ForOf = @Expected.skel_ForOf := by rfl
+theorem tie_skel_iterStep : @GojaModel.Generated.C14.skel_iterStep = @Expected.skel_iterStep := by rfl
+theorem tie_skel_Try : @GojaModel.Generated.C14.skel_Try = @Expected.skel_Try := by rfl
+theorem tie_skel_rtry : @GojaModel.Generated.C14.skel_rtry = @Expected.skel_rtry := by rfl
+theorem tie_skel_AssertFunction : @GojaModel.Generated.C14.skel_AssertFunction = @Expected.skel_AssertFunction := by rfl
+theorem tie_skel_leave : @GojaModel.Generated.C14.skel_leave = @Expected.skel_leave := by rfl
+theorem tie_skel_restoreStacks : @GojaModel.Generated.C14.skel_restoreStacks = @Expected.skel_restoreStacks := by rfl
+theorem tie_skel_generatorObjectStep : @GojaModel.Generated.C14.skel_generatorObjectStep = @Expected.skel_generatorObjectStep := by rfl
+theorem tie_skel_tryCallDelegated : @GojaModel.Generated.C14.skel_tryCallDelegated = @Expected.skel_tryCallDelegated := by rfl
+theorem tie_skel_asyncRunnerStep : @GojaModel.Generated.C14.skel_asyncRunnerStep = @Expected.skel_asyncRunnerStep := by rfl
+theorem tie_skel_ExceptionError : @GojaModel.Generated.C14.skel_ExceptionError = @Expected.skel_ExceptionError := by rfl
+theorem tie_skel_ExceptionString : @GojaModel.Generated.C14.skel_ExceptionString = @Expected.skel_ExceptionString := by rfl
+theorem tie_skel_ExceptionValueString : @GojaModel.Generated.C14.skel_ExceptionValueString = @Expected.skel_ExceptionValueString := by rfl
+theorem tie_skel_underscoreCall : @GojaModel.Generated.C14.skel_underscoreCall = @Expected.skel_underscoreCall := by rfl
+theorem tie_skel_RunProgram : @GojaModel.Generated.C14.skel_RunProgram = @Expected.skel_RunProgram := by rfl
+theorem tie_skel_wrapReflectErr : @GojaModel.Generated.C14.skel_wrapReflectErr = @Expected.skel_wrapReflectErr := by rfl
+theorem tie_skel_wrapJSFuncErr : @GojaModel.Generated.C14.skel_wrapJSFuncErr = @Expected.skel_wrapJSFuncErr := by rfl
+theorem tie_skel_promiseReactionJob : @GojaModel.Generated.C14.skel_promiseReactionJob = @Expected.skel_promiseReactionJob := by rfl
+theorem tie_uncatchableMarkerReceivers : @GojaModel.Generated.C14.uncatchableMarkerReceivers = @Expected.uncatchableMarkerReceivers := by rfl
+theorem tie_uncatchableTypes : @GojaModel.Generated.C14.uncatchableTypes = @Expected.uncatchableTypes := by rfl
+theorem tie_recoverSites : @GojaModel.Generated.C14.recoverSites = @Expected.recoverSites := by rfl
+theorem tie_handleThrowDecision : @GojaModel.Generated.C14.handleThrowDecision = @Expected.handleThrowDecision := by rfl
+theorem tie_throwReusesOwnStack : @GojaModel.Generated.C14.throwReusesOwnStack = @Expected.throwReusesOwnStack := by rfl
+theorem tie_wrapReflectDecision : @GojaModel.Generated.C14.wrapReflectDecision = @Expected.wrapReflectDecision := by rfl
+theorem tie_runWrappedRecoverDecision : @GojaModel.Generated.C14.runWrappedRecoverDecision = @Expected.runWrappedRecoverDecision := by rfl
+theorem tie_runProgramRecoverDecision : @GojaModel.Generated.C14.runProgramRecoverDecision = @Expected.runProgramRecoverDecision := by rfl
 
 /-! ## The regenerated classifier table agrees with the model -/
 
@@ -478,5 +518,91 @@ theorem tie_forOf_return_guarded :
       (.panic (.exc ⟨.obj 1, .thrower⟩) .other, [⟨2, .iterReturn⟩]) ∧
     (fotPrefix 2 false (.panic (.exc ⟨.obj 1, .thrower⟩) .thrower)).1 =
       .panic (.exc ⟨.freshErr .error .other, .other⟩) .other := by decide
+
+/-- `_throw.exec` reuses an Error object's own stack only if it is NON-EMPTY (`len(e.stack) > 0`, not `!= nil`):
+the model's `throwExec` captures at the throw site for a host-made Error object (own stack empty) — the class of
+seeded change C14-m4. -/
+theorem tie_throw_reuses_nonempty_stack_only :
+    GojaModel.Generated.C14.skel_throwExec.contains "..if len(e.stack) > 0" = true ∧
+    throwExec .thrower (.goError 1 (.plain 1)) = ⟨.goError 1 (.plain 1), .thrower⟩ ∧
+    throwExec .thrower (.errObj 1 .error) = ⟨.errObj 1 .error, .creation⟩ ∧
+    exceptionFromValue .other (.val (.goError 1 (.plain 1))) = some ⟨.goError 1 (.plain 1), .empty⟩ := by decide
+
+/-- yield*: the inner generator's exception is re-thrown inside the delegating generator (`nextThrow`). -/
+theorem tie_yield_star_rethrows_inside :
+    GojaModel.Generated.C14.skel_tryCallDelegated.contains ".return g.step(g.gen.nextThrow(ex)), false" = true ∧
+    (applyFrame 1 .jyf true (.panic (.exc ⟨.obj 1, .thrower⟩) .thrower)) =
+      (.panic (.exc ⟨.obj 1, .thrower⟩) .other, [⟨1, .fin⟩]) := by decide
+
+/-! ## handleThrow's per-frame decision, regenerated as a FUNCTION, equals the model's handleThrowLoop -/
+
+/-- The model's try frame for Go's (catchPos, finallyPos). -/
+def encTF (c f : Int) : TF := if c == -2 then .marker else .js (decide (c ≥ 0)) (decide (f ≥ 0))
+
+/-- What the model's handleThrowLoop does with a one-frame try stack, in the vocabulary of the Go if-chain. -/
+def modelDecision (tf : TF) (exNil : Bool) : String :=
+  match handleThrowLoop (if exNil then none else some ⟨.obj 0, .other⟩) (.other 0) [tf] with
+  | .caught _ _ => "caught"
+  | .toFinally _ _ => "finally"
+  | .returned _ (_ :: _) => "break"
+  | .repanic _ (_ :: _) => "break"
+  | .returned _ [] => "continue"
+  | .repanic _ [] => "continue"
+
+/-- For EVERY try frame (catchPos ∈ {marker} ∪ [-1, ∞), finallyPos ∈ [-1, ∞), marker frames have no finally) and both
+kinds of panic value, the decision function regenerated from vm.handleThrow's source equals the model's. -/
+theorem tie_handleThrow_decision (c f : Int) (n : Bool) (hc : c ≥ -2) (hf : f ≥ -1) (hm : c = -2 → f = -1) :
+    GojaModel.Generated.C14.handleThrowDecision c f n = modelDecision (encTF c f) n := by
+  have h1 : c = -2 ∨ c = -1 ∨ c ≥ 0 := by omega
+  have h2 : f = -1 ∨ f ≥ 0 := by omega
+  rcases h1 with rfl | rfl | h1
+  · have := hm rfl; subst this
+    cases n <;> simp [GojaModel.Generated.C14.handleThrowDecision, modelDecision, encTF, handleThrowLoop]
+  · rcases h2 with rfl | h2
+    · cases n <;> simp [GojaModel.Generated.C14.handleThrowDecision, modelDecision, encTF, handleThrowLoop]
+    · have hf1 : f ≠ -1 := by omega
+      cases n <;> simp [GojaModel.Generated.C14.handleThrowDecision, modelDecision, encTF, handleThrowLoop, hf1, h2]
+  · have hc1 : c ≠ -1 := by omega
+    have hc2 : c ≠ -2 := by omega
+    rcases h2 with rfl | h2
+    · cases n <;> simp [GojaModel.Generated.C14.handleThrowDecision, modelDecision, encTF, handleThrowLoop, hc1, hc2, h1]
+    · cases n <;> simp [GojaModel.Generated.C14.handleThrowDecision, modelDecision, encTF, handleThrowLoop, hc1, hc2, h1, h2]
+
+/-- `_throw.exec` reuses an errorObject's own stack exactly when the model's `throwExec` does (non-empty). -/
+theorem tie_throw_reuse_decision :
+    (∀ len alloc, GojaModel.Generated.C14.throwReusesOwnStack len alloc = decide (len > 0)) ∧
+    (∀ site v s, v.ownStack = some s → s ≠ .empty → (throwExec site v).top = s) ∧
+    (∀ site v, v.ownStack = some .empty → (throwExec site v).top = site) := by
+  refine ⟨fun _ _ => rfl, ?_, ?_⟩
+  · intro site v s h hs; cases s <;> simp_all [throwExec]
+  · intro site v h; simp [throwExec, h]
+
+/-- wrapReflectFunc's regenerated decision function equals the model's `wrapReflectErr` on EVERY error value. -/
+def reflectOutcome : Flow → String
+  | .panic (.exc _) _ => "panic(err)"
+  | .panic (.goErr _) _ => "panic(err)"
+  | .panic (.val (.freshGoError _)) _ => "panic(r.NewGoError(err))"
+  | _ => "?"
+
+theorem tie_wrapReflect_decision (ev : ErrVal) :
+    reflectOutcome (wrapReflectErr (some ev)) =
+      GojaModel.Generated.C14.wrapReflectDecision
+        (match ev with | .exc _ => true | .go _ => false)
+        (match ev with | .exc _ => false | .go e => e.isUncatchable) := by
+  cases ev with
+  | exc ex => simp [wrapReflectErr, reflectOutcome, GojaModel.Generated.C14.wrapReflectDecision]
+  | go e =>
+    by_cases h : e.isUncatchable = true <;>
+      simp [wrapReflectErr, reflectOutcome, GojaModel.Generated.C14.wrapReflectDecision, h]
+
+/-- The deferred recovers of runWrapped and RunProgram, regenerated as functions, equal the model's
+`recoverUncatchable` on EVERY panic value. -/
+theorem tie_recover_decision (x : Pv) (o : StackTop) :
+    (match recoverUncatchable x o with | .err _ => "err = ex" | .panic _ _ => "panic(x)" | .ok => "?") =
+      GojaModel.Generated.C14.runWrappedRecoverDecision (asUncatchableException x).isSome ∧
+    GojaModel.Generated.C14.runWrappedRecoverDecision = GojaModel.Generated.C14.runProgramRecoverDecision := by
+  refine ⟨?_, rfl⟩
+  cases h : asUncatchableException x <;>
+    simp [recoverUncatchable, h, GojaModel.Generated.C14.runWrappedRecoverDecision]
 
 end GojaModel.C14.Tie
